@@ -43,8 +43,13 @@ def main():
         for d in demos:
             base = os.path.basename(d)
             live = [p for p in glob.glob(f"{ROOT}/{pid}/**/{base}", recursive=True) if "/_seed/" not in p]
-            rel = os.path.dirname(os.path.relpath(live[0], f"{ROOT}/{pid}")) if live else "."
             pkgline = [l for l in open(d) if l.startswith("package ")][0].split()[1]
+            if live:
+                rel = os.path.dirname(os.path.relpath(live[0], f"{ROOT}/{pid}"))
+            else:
+                # the agent removed its live copy: place the demo by its package clause
+                base_pkg = pkgline[:-5] if pkgline.endswith("_test") else pkgline
+                rel = {"terminfo": "terminfo", "views": "views", "encoding": "encoding"}.get(base_pkg, ".")
             if pkgline == "main":
                 ddir = os.path.join(wt, "_seeddemo"); os.makedirs(ddir, exist_ok=True)
                 shutil.copy(d, os.path.join(ddir, "main.go"))
